@@ -450,6 +450,7 @@ func (env *ExecEnv) Eval(expr string) (n int, err error) {
 			l.Error(e.(error).Error())
 			err = l.err
 		}
+		l.wait()
 	}()
 
 	yyParse(l)
